@@ -32,7 +32,7 @@ def gen_image(rng, R, small=True, idx=0):
     unified = rng.random() < 0.2
     img = {
         "path": "%s/%s/iso/img-%d-%s.iso" % (rng.choice(VARIANTS), rng.choice(ARCHES), idx, rstr(rng, "abc", 1, 3)),
-        "mtime": rng.randint(1, 2 ** 31), "size": rng.choice([1, 2048, 2 ** 33 + 5, rng.randint(1, 2 ** 40)]),
+        "mtime": rng.choice([rng.randint(1, 2 ** 31), rng.randint(1, 2 ** 31), 1538000000123456789, 2 ** 53 + 1, 2 ** 61 + 12345]), "size": rng.choice([1, 2048, 2 ** 33 + 5, rng.randint(1, 2 ** 40)]),
         "volume_id": rng.choice([None, "Fedora-S-dvd-x86_64-22", "vol"]),
         "type": rng.choice(["dvd", "boot"] if small else types), "format": rng.choice(["iso"] if small else formats),
         "arch": rng.choice(["x86_64", "src"] if small else ARCHES + ["src"]),
